@@ -601,6 +601,8 @@ func runC09(c *Ctx) {
 	r.Doc("J6", "(greedy batching) after an ingest: flush or leave under len(B) < JoinSize", 3)
 	r.Doc("J7", "(greedy batching, unite) fit facts", 1)
 	r.Doc("J1", "(end of input) the loops end, and flush, only when the input was observed closed (comma-ok / range): a nil or empty slice is data, not the end", 6)
+	r.Doc("T7", "the Timeout option is never assigned by product code (the timeout in force is the configured one)", 2)
+	checkTimeoutUnmodified(c, "T7")
 	for _, jr := range joinDiscs(c) {
 		checkJ1(c, jr)
 		checkM1(c, jr)
@@ -623,6 +625,8 @@ func runC10(c *Ctx) {
 	r.Doc("T4", "every timeout test is time.Since(passAt) >= Timeout", 3)
 	r.Doc("T5", "ticker period = interruptInterval = timeout / (100 / inaccuracy) with error exits; default inaccuracy substituted", 6)
 	r.Doc("T6", "ticker clause and input clause in the same select", 3)
+	r.Doc("T7", "the Timeout option is never assigned by product code (the timeout in force is the configured one)", 2)
+	checkTimeoutUnmodified(c, "T7")
 	for _, jr := range joinDiscs(c) {
 		checkT1(c, jr)
 		checkT3T6(c, jr)
@@ -1202,4 +1206,35 @@ func reachesInstr(st ssa.Instruction, at ssa.Instruction) bool {
 		}
 	}
 	return false
+}
+
+// checkTimeoutUnmodified (C10/T7 = C09/T7): the timeout in force is the configured one: product
+// code of the join packages never assigns the Timeout option (rounding it up to a whole number of
+// interrupt intervals makes an element wait up to Timeout * (1 + 2/divider)).
+func checkTimeoutUnmodified(c *Ctx, rule string) {
+	for _, p := range []*Prog{c.V1, c.V2} {
+		n := 0
+		for _, fn := range p.Funcs() {
+			rel, ok := p.Rel(fn)
+			if !ok || !strings.HasPrefix(rel, "join") {
+				continue
+			}
+			for _, b := range fn.Blocks {
+				for _, in := range b.Instrs {
+					st, isSt := fieldStore(in, "Timeout")
+					if !isSt {
+						continue
+					}
+					n++
+					v := deepStrip(p.Sym(st.Val))
+					_, path, okp := v.FieldPath()
+					c.R.Check(okp && path[len(path)-1] == "Timeout", rule, fmt.Sprintf("%s#timeout-store.%d", p.FnKey(fn), n), p.InstrPos(in), "Timeout copied as configured",
+						"Timeout is set to "+v.String()+" instead of the configured value: elements wait longer (or shorter) than the Timeout the caller asked for")
+				}
+			}
+		}
+		if n == 0 {
+			c.R.Pass(rule, p.Name+":join#timeout-store", "-", "the Timeout option is never assigned by product code")
+		}
+	}
 }
